@@ -170,6 +170,16 @@ REGISTRABLE = {   # which classes of a family get registered (instances of ALL c
     'dictsub': ['MyDict', 'MyDictS'], 'seqsub': ['MyList'],
 }
 OPSETS = {'all': OPS, 'get': ['get'], 'itk': ['iterate', 'keys'], 'mut': ['assign', 'delete']}
+# registrations that switch an operation OFF for a type (handler False)
+OFFSETS = {'no-iterate': ['iterate'], 'no-assign': ['assign', 'delete'], 'no-get': ['get']}
+
+
+def ops_of(opset, cname):
+    """operation -> handler tag (the class name) or False"""
+    if opset in OFFSETS:
+        return {op: False for op in OFFSETS[opset]}
+    return {op: cname for op in OPSETS[opset]}
+
 
 HLOG = []
 
@@ -287,7 +297,7 @@ def model_lookup(regs, with_defaults, ops_available, op, o):
     if mine:
         explicit = [r for r in mine if op in r[1]]
         if explicit:
-            return {'H:' + explicit[-1][1][op]}
+            return {('H:' + explicit[-1][1][op]) if explicit[-1][1][op] is not False else False}
         if op in ops_available:
             return {auto(op, Tcls)}
     # 2. candidates registered without exact
@@ -299,7 +309,7 @@ def model_lookup(regs, with_defaults, ops_available, op, o):
         mineC = [r for r in regs if r[0] is cls]
         explicit = [r for r in mineC if op in r[1]]
         if explicit:
-            h = 'H:' + explicit[-1][1][op]
+            h = ('H:' + explicit[-1][1][op]) if explicit[-1][1][op] is not False else False
         elif op in ops_available:
             h = auto(op, cls)
         else:
@@ -439,7 +449,7 @@ def admissible(regs, with_defaults, ops_available, op, cname):
 
 def apply_event(registries, ev):
     which, cname, opset, exact = ev
-    kwargs = {op: mk_handler(op, cname) for op in OPSETS[opset]}
+    kwargs = {op: (mk_handler(op, tag) if tag is not False else False) for op, tag in ops_of(opset, cname).items()}
     reg = registries[which]
     if which == 'module':
         G.register(CLS[cname], exact=exact, **kwargs)
@@ -461,7 +471,7 @@ def run_history_inproc(family, hist, observe_every, with_module):
     for i, ev in enumerate(hist):
         apply_event(registries, ev)
         which, cname, opset, exact = ev
-        model[which].append((CLS[cname], {op: cname for op in OPSETS[opset]}, exact))
+        model[which].append((CLS[cname], ops_of(opset, cname), exact))
         if observe_every or i == len(hist) - 1:
             now = {k: observe_all(callers[k], family, k != 'bare') for k in callers}
             problems += check_obs(family, now, model)
@@ -566,6 +576,15 @@ def gen_histories(tier):
                     mixed = list(hist)
                     mixed.insert(1, ['bare', hist[0][1], 'all', False])
                     cases.append([family, mixed, False])
+        # an operation switched off (handler False), then the same class registered again without mentioning it, in both orders with a tagged registration
+        for c in REGISTRABLE[family]:
+            for off in OFFSETS:
+                for other in ('get', 'all', 'mut'):
+                    for reg in ('default', 'bare'):
+                        for exact in (False, True):
+                            cases.append([family, [[reg, c, off, exact], [reg, c, other, exact]], False])
+                            cases.append([family, [[reg, c, other, exact], [reg, c, off, exact]], False])
+                        cases.append([family, [[reg, c, off, False]], False])
         if tier == 'quick':
             # depth 3 only for the re-registration pattern: register X, register Y, register X again (possibly with other operations)
             for x, y in itertools.permutations(REGISTRABLE[family], 2):
